@@ -35,7 +35,7 @@ Proof. reflexivity. Qed.
 Theorem places_where_map_order_can_show :
   map_order_sinks = ["core.Dict.Keys: append keys"; "core.Dict.String: append parts";
                      "epubdoc.Reader.findNCX: early return"; "epubdoc.Reader.findNavDocument: early return";
-                     "reader.Reader.ExtractPageImages: append images"; "reader.Reader.ResolveDeep: early return";
+                     "reader.Reader.ExtractPageImages: append images"; "reader.Reader.resolveDeep: early return";
                      "resolver.ObjectResolver.resolve: early return"; "tables.DetectorRegistry.List: append names"]%string.
 Proof. reflexivity. Qed.
 
